@@ -631,7 +631,7 @@ def _eval_ident(case, cache):
                 info["evaluations"] += 1
                 x, y = blk[q], b_[k * S * n + q]
                 if not _close(y, x, scale):
-                    out.append(("C16:%s:differs" % site,
+                    out.append(("C16:%s:differs%s" % (site, ":network-%d" % case["net"] if "net" in case else ""),
                                 "sample %d species %d cell %d: identity-map run gives %.15g, plain run %.15g (SI; scale %.6g)"
                                 % (k, q // n, q % n, y, x, scale)))
                     return out, info
